@@ -13,8 +13,41 @@ func (e *Engine) assumptionList(prop string, keys []string) []string {
 		"int is 64 bits wide; slice, map and string lengths are below 2^56",
 		"int<->uint32 conversions are uninterpreted bridges with the round-trip lemma instantiated at each use; bitwise | on int is uninterpreted except x|0 == x",
 	}
+	// only what the functions of this property can see: their own packages' contract files (a scan entry starts
+	// with the contract file's path) and the packages they call into
+	pkgs := map[string]bool{}
+	for _, k := range keys {
+		if f := e.Contracts.Funcs[k]; f != nil {
+			pkgs[f.Pkg] = true
+		}
+	}
+	// the compile path is used by the loader, the sandbox and the profiler
+	if pkgs["main:sandbox"] || pkgs["main:seccomp-profiler"] {
+		pkgs["seccomp"] = true
+	}
+	if pkgs["seccomp"] {
+		pkgs["arch"] = true
+	}
+	if pkgs["main:seccomp-profiler"] {
+		pkgs["disasm"] = true
+	}
+	relevantFile := func(path string) bool {
+		switch {
+		case strings.HasPrefix(path, "cmd/seccomp-profiler/disasm/"):
+			return pkgs["disasm"]
+		case strings.HasPrefix(path, "cmd/seccomp-profiler/"):
+			return pkgs["main:seccomp-profiler"]
+		case strings.HasPrefix(path, "cmd/sandbox/"):
+			return pkgs["main:sandbox"]
+		case strings.HasPrefix(path, "arch/"):
+			return pkgs["arch"]
+		}
+		return pkgs["seccomp"] || len(pkgs) == 0
+	}
 	for _, a := range e.Contracts.AssumeScan {
-		as = append(as, "contract scan: "+a)
+		if relevantFile(a) {
+			as = append(as, "contract scan: "+a)
+		}
 	}
 	for name, ts := range e.Contracts.Types {
 		for _, inv := range ts.Invariants {
@@ -22,7 +55,7 @@ func (e *Engine) assumptionList(prop string, keys []string) []string {
 		}
 	}
 	for k, f := range e.Contracts.Funcs {
-		if f.Trusted && !f.Extern {
+		if f.Trusted && !f.Extern && (pkgs[f.Pkg] || len(pkgs) == 0) {
 			kind := "contract assumed, body not verified"
 			if f.IsLemma {
 				kind = "meta-theory axiom (trusted lemma)"
